@@ -23,6 +23,14 @@ models
                                                           `build_pou_index_and_bodies`
        crates/trust-runtime/src/bytecode/encoder/locals.rs `alloc_for_temp_pairs`, `unique_temp_name`
                                                           (the `used` HashSet)
+       crates/trust-runtime/src/bytecode/encoder/types.rs  `type_index`, `collect_decl_types` (`type_map`)
+       crates/trust-runtime/src/bytecode/encoder/refs.rs   `ref_index_for` (`ref_map` + `strings`)
+       crates/trust-runtime/src/bytecode/encoder/debug.rs  `file_path_index` (`file_path_indices` +
+                                                          `debug_strings`)
+       crates/trust-runtime/src/harness/build.rs           the four duplicate-name `HashSet`s
+       crates/trust-runtime/src/io.rs                      `IoInterface::{read,write}` on `hierarchical`
+       crates/trust-runtime/src/harness/config.rs          the reviewed loop of
+                                                          `apply_program_retain_overrides`
   4. the classification `orderFree` of the operations the translator finds applied to hash-typed
      bindings (`Generated/HashUses.lean`);
   5. the executable statement of the property on observed process outputs (`agree`), and the
